@@ -191,8 +191,53 @@ fn char_names() -> Vec<String> {
     v
 }
 
+/// A clone of pattern `a`, and an object compiled from `b` and then overwritten with
+/// clone_from(a), match like `a` (Pattern and the standalone Dewey matcher).
+fn check_copy(t: &mut Tally, a: &str, b: &str, cnames: &[String]) {
+    t.states += 1;
+    t.evals += 1;
+    t.validated += 1;
+    t.transitions += cnames.len() as u64;
+    let r = guard(|| {
+        let (pa, da) = (Pattern::new(a).ok()?, Dewey::new(a).ok()?);
+        let (mut pb, mut db) = (Pattern::new(b).ok()?, Dewey::new(b).ok()?);
+        pb.clone_from(&pa);
+        db.clone_from(&da);
+        let (pc, dc) = (pa.clone(), da.clone());
+        for n in cnames {
+            let want = pa.matches(n);
+            let got = [pb.matches(n), pc.matches(n), db.matches(n), dc.matches(n), da.matches(n)];
+            if got.iter().any(|g| *g != want) {
+                return Some(Some((n.clone(), want, got)));
+            }
+        }
+        if pb != pa || pc != pa || pb.pattern() != pa.pattern() {
+            return Some(Some(("(equality / pattern text of the copy)".to_string(), true, [pb == pa, pc == pa, pb.pattern() == pa.pattern(), true, true])));
+        }
+        Some(None)
+    });
+    match r {
+        Ok(Some(None)) => {
+            t.nontrivial += 1;
+            t.outcome("copies/match-like-the-original");
+        }
+        Ok(None) => t.violation(Violation::new("copy", json!({"original": a, "overwritten": b}), json!("both compile"), json!("compile error"), "a valid one- or two-bound pattern must compile")),
+        Ok(Some(Some((n, want, got)))) => t.violation(Violation::new("copy", json!({"original": a, "overwritten": b, "name": n}), json!(want), json!({"clone_from (Pattern), clone (Pattern), clone_from (Dewey), clone (Dewey), original Dewey": got}), "a copy of a pattern matches exactly what the pattern matches")),
+        Err(m) => t.violation(Violation::new("copy", json!({"original": a, "overwritten": b}), json!("returns"), json!(format!("panic: {}", m)), "copying a pattern panicked")),
+    }
+}
+
 fn replay(doc: &Value) -> Option<Violation> {
     let c = &doc["case"];
+    if doc["kind"] == "copy" {
+        let mut t = Tally::new();
+        let names: Vec<String> = match c["name"].as_str() {
+            Some(n) if !n.starts_with('(') => vec![n.to_string()],
+            _ => vec!["p-1".to_string()],
+        };
+        check_copy(&mut t, c["original"].as_str().unwrap_or(""), c["overwritten"].as_str().unwrap_or(""), &names);
+        return t.violations.into_iter().next();
+    }
     let pat = c["pattern"].as_str().unwrap_or("");
     let names: Vec<String> = c["name"].as_str().map(|s| vec![s.to_string()]).unwrap_or_default();
     let mut t = Tally::new();
@@ -308,6 +353,21 @@ fn main() {
             t.transitions += bnames.len() as u64;
             check_pattern(t, &p, &bnames);
         });
+    }
+    // (d) copies: a clone, and an object overwritten with clone_from, match like the pattern they
+    // were copied from (every ordered pair of 16 patterns: the overwritten object was compiled
+    // from the other one), for Pattern and for the standalone Dewey matcher
+    {
+        const PS: [&str; 16] = ["p>1", "p>=1", "p<1", "p<=1", "p>1<2", "p>=1<=2", "p>1<=2", "p>=1<2", "q>=2", "p>=2nb1", "p-q>0<9", "p<1.5", "p>=1.0alpha", "pp<=10", "p>0", "p<2nb1"];
+        let mut t = Tally::new();
+        let cnames: Vec<String> = ["p-0", "p-1", "p-1.0", "p-1.5", "p-2", "p-2nb1", "p-2nb2", "p-10", "q-2", "q-1", "p-q-5", "pp-3", "p", "p-1alpha"].iter().map(|s| s.to_string()).collect();
+        for a in PS {
+            for b in PS {
+                check_copy(&mut t, a, b, &cnames);
+            }
+        }
+        run.bound("(d) copies: clone and clone_from over every ordered pair of 16 patterns x 14 names, Pattern and Dewey");
+        run.merge(t);
     }
     // range grid: every one- and two-bound pattern over a wider grid of bound shapes (equal values
     // in different spellings, modifiers, revisions, long and padded numbers) x every version of
